@@ -223,6 +223,12 @@ theorem pres_trackAtoms (A : String → Prop) (as : List TAtom) :
 theorem pres_trackAssign (A : String → Prop) (t : Expr) : Pres A (fun st => trackAssign st t) :=
   pres_trackAtoms A _
 
+theorem pres_trackTargets (A : String → Prop) (ts : List Expr) :
+    Pres A (fun st => ts.foldl trackAssign st) := by
+  induction ts with
+  | nil => exact Pres.id A
+  | cons t ts ih => exact Pres.comp (pres_trackAssign A t) ih
+
 theorem pres_macroArgs (A : String → Prop) (as : List String) (ds : List Expr) :
     Pres A (fun st => macroArgs st as ds) := by
   induction as generalizing ds with
@@ -329,9 +335,9 @@ theorem pres_walk (A : String → Prop) : (s : Stmt) → Pres A (fun st => walk 
         (pres_trackAssign A target)
       simpa only [walk] using this
   | .macro name args defaults body => by
-      have := Pres.comp (pres_assign A name) (pres_scope (Pres.comp (Pres.comp
+      have := Pres.comp (pres_scope (Pres.comp (Pres.comp
         (pres_assign A "caller") (pres_macroArgs A args.reverse defaults.reverse))
-        (pres_walkList A body)))
+        (pres_walkList A body))) (pres_assign A name)
       simpa only [walk] using this
   | .callBlock callee cargs args defaults body => by
       have := Pres.comp (pres_visitLeaves A (nvarsCall callee cargs)) (pres_scope (Pres.comp
@@ -344,6 +350,12 @@ theorem pres_walk (A : String → Prop) : (s : Stmt) → Pres A (fun st => walk 
   | .cont => by simpa only [walk] using Pres.id A
   | .block _ body => by
       simpa only [walk] using pres_block (pres_walkList A body)
+  | .include name => by simpa only [walk] using pres_visitExpr A name
+  | .extends name => by simpa only [walk] using pres_visitExpr A name
+  | .importAs e target => by
+      simpa only [walk] using Pres.comp (pres_visitExpr A e) (pres_trackAssign A target)
+  | .fromImport e targets => by
+      simpa only [walk] using Pres.comp (pres_visitExpr A e) (pres_trackTargets A targets)
 theorem pres_walkList (A : String → Prop) : (ss : List Stmt) → Pres A (fun st => walkList st ss)
   | [] => by simpa only [walkList] using Pres.id A
   | s :: ss => by
